@@ -1354,7 +1354,7 @@ PROPS = {
              " What the two loggers write through log() (one marked record per maximum x level x 5 targets through the real file logger and the real stdout logger, stdout pointed at a scratch file) is compared with the filter model",
         explanation="theorems scrub_request_hides (non-interference), scrubbed_values_are_placeholders, scrub_keeps_other_headers, "
                     "scrub_adds_nothing, scrub_sni_hides_label, meta_debug_hides_creds about TT/Model/Scrub.lean; all_log_sites_clean over the "
-                    "regenerated TT/Gen/LogSites.lean; tls_library_traces_never_logged, other_records_follow_the_level about the filter of the endpoint's loggers",
+                    "regenerated TT/Gen/LogSites.lean; secret_value_absent (a secret sent only in sensitive headers occurs nowhere in the scrubbed list), scrub_sni_single_label; tls_library_traces_never_logged, other_records_follow_the_level about the filter of the endpoint's loggers",
         trusted=["the taint rules of tools/extract.py (which expressions carry secrets, which wrappers make them safe, per-file "
                  "exceptions) - whole-program absence of leaks rests on them plus the dynamic search, not on a theorem about the code",
                  "the SOCKS5 path is covered by the site table only, not by scenarios",
